@@ -371,6 +371,9 @@ func (c *e1ctx) discharge(s *e1.Site) (string, bool) {
 		if r, ok := c.ruleConsume(s); ok {
 			return r, true
 		}
+		if r, ok := c.ruleFieldIndex(s); ok {
+			return r, true
+		}
 	case "P4":
 		if r, ok := c.ruleKind(s); ok {
 			return r, true
@@ -1292,4 +1295,162 @@ func (c *e1ctx) gAddrTaken(fn *ssa.Function) bool {
 		}
 	}
 	return false
+}
+
+// ruleFieldIndex (R-fieldidx): x.S[x.I] where slice and index are two fields of the same object, under the true
+// edge of `x.I < len(x.S)` with nothing in between that could change either field, and the index field is never
+// negative: every store to it anywhere stores a non-negative constant, the field's own earlier value (saved and
+// restored, possibly through a parameter whose every caller passes such a value) or that plus a positive constant.
+func (c *e1ctx) ruleFieldIndex(s *e1.Site) (string, bool) {
+	var sliceV, idxV ssa.Value
+	switch x := s.Instr.(type) {
+	case *ssa.IndexAddr:
+		sliceV, idxV = x.X, x.Index
+	case *ssa.Index:
+		sliceV, idxV = x.X, x.Index
+	default:
+		return "", false
+	}
+	fieldLoad := func(v ssa.Value) (*ssa.FieldAddr, bool) {
+		ld, ok := v.(*ssa.UnOp)
+		if !ok || ld.Op != token.MUL {
+			return nil, false
+		}
+		fa, ok := ld.X.(*ssa.FieldAddr)
+		return fa, ok
+	}
+	sf, ok1 := fieldLoad(sliceV)
+	xf, ok2 := fieldLoad(idxV)
+	if !ok1 || !ok2 || sf.X != xf.X || sf.Field == xf.Field {
+		return "", false
+	}
+	sameField := func(v ssa.Value, like *ssa.FieldAddr) bool {
+		fa, ok := fieldLoad(v)
+		return ok && fa.X == like.X && fa.Field == like.Field
+	}
+	// guard: a block ending in `if x.I < len(x.S)` whose true successor (single predecessor) dominates the index
+	blk := s.Instr.Block()
+	var guard *ssa.BasicBlock
+	for _, b := range blk.Parent().Blocks {
+		iff, ok := b.Instrs[len(b.Instrs)-1].(*ssa.If)
+		if !ok {
+			continue
+		}
+		bo, ok := iff.Cond.(*ssa.BinOp)
+		if !ok || bo.Op != token.LSS || !sameField(bo.X, xf) {
+			continue
+		}
+		lc, ok := bo.Y.(*ssa.Call)
+		if !ok {
+			continue
+		}
+		if bi, isB := lc.Call.Value.(*ssa.Builtin); !isB || bi.Name() != "len" || !sameField(lc.Call.Args[0], sf) {
+			continue
+		}
+		ts := b.Succs[0]
+		if len(ts.Preds) == 1 && (ts == blk || ts.Dominates(blk)) {
+			guard = b
+		}
+	}
+	if guard == nil {
+		return "", false
+	}
+	// nothing that can change the fields between the test and the use: only the straight line guard -> true successor == index block is accepted
+	if guard.Succs[0] != blk {
+		return "", false
+	}
+	for _, ins := range blk.Instrs {
+		if ins == s.Instr {
+			break
+		}
+		switch ins.(type) {
+		case *ssa.Store, *ssa.Call, *ssa.Go, *ssa.Defer, *ssa.MapUpdate, *ssa.Send:
+			return "", false
+		}
+	}
+	// the index field is never negative
+	owner := su.FieldOwner(xf)
+	if owner == nil {
+		return "", false
+	}
+	fname := su.FieldName(xf)
+	var nonNeg func(v ssa.Value, fn *ssa.Function, d int) bool
+	nonNeg = func(v ssa.Value, fn *ssa.Function, d int) bool {
+		if d > 5 {
+			return false
+		}
+		if k, ok := su.ConstInt(v); ok {
+			return k >= 0
+		}
+		switch x := v.(type) {
+		case *ssa.UnOp:
+			if fa, ok := fieldLoad(x); ok {
+				if o := su.FieldOwner(fa); o != nil && o == owner && su.FieldName(fa) == fname {
+					return true // the field's own value
+				}
+			}
+			if al, ok := x.X.(*ssa.Alloc); ok && x.Op == token.MUL {
+				all := true
+				for _, ref := range *al.Referrers() {
+					if st, ok := ref.(*ssa.Store); ok && st.Addr == ssa.Value(al) && !nonNeg(st.Val, fn, d+1) {
+						all = false
+					}
+				}
+				return all
+			}
+		case *ssa.BinOp:
+			if x.Op == token.ADD {
+				return nonNeg(x.X, fn, d+1) && nonNeg(x.Y, fn, d+1)
+			}
+		case *ssa.Phi:
+			for _, e := range x.Edges {
+				if e != ssa.Value(x) && !nonNeg(e, fn, d+1) {
+					return false
+				}
+			}
+			return true
+		case *ssa.Parameter:
+			idx := -1
+			for i, q := range fn.Params {
+				if q == x {
+					idx = i
+				}
+			}
+			n := 0
+			for _, caller := range c.p.Repo {
+				for _, call := range su.Calls(caller) {
+					if call.Common().StaticCallee() != fn {
+						continue
+					}
+					n++
+					if idx >= len(call.Common().Args) || !nonNeg(call.Common().Args[idx], caller, d+1) {
+						return false
+					}
+				}
+			}
+			return n > 0
+		}
+		return false
+	}
+	for _, fn := range c.p.Repo {
+		for _, b := range fn.Blocks {
+			for _, ins := range b.Instrs {
+				st, ok := ins.(*ssa.Store)
+				if !ok {
+					continue
+				}
+				fa, ok := st.Addr.(*ssa.FieldAddr)
+				if !ok {
+					continue
+				}
+				if o := su.FieldOwner(fa); o == nil || o != owner || su.FieldName(fa) != fname {
+					continue
+				}
+				if !nonNeg(st.Val, fn, 0) {
+					return "", false
+				}
+			}
+		}
+	}
+	return "R-fieldidx: under the true edge of " + owner.Obj().Name() + "." + fname + " < len(" + owner.Obj().Name() + "." + su.FieldName(sf) + ") with nothing in between; every store to " + fname + " stores a non-negative constant, its own earlier value or that plus a non-negative amount", true
 }
